@@ -312,7 +312,7 @@ func histories(n int, ops, headers int, classes []string) [][]step {
 func TestCheck(t *testing.T) {
 	run := vk.Start("C16", "exploration")
 	defer run.Finish()
-	run.Rule("(a) all operation histories of length <= n over the alphabet x one Cache-Control menu entry and response class for the FIRST step (later steps: clean, public max-age=60) plus, for the storability clause, every (header, class) on every step position x <=1 cache fault; (b) caching.TTL over all header atom strings <= k and their two-line splits; distinct = distinct (history, header, class, fault, outcome) resp. distinct (verdict, ttl)")
+	run.Rule("(a) all operation histories of length <= n over the alphabet x one Cache-Control menu entry and response class for the FIRST step (later steps: clean, public max-age=60) plus, for the storability clause, every (header, class) on every step position x <=1 cache fault; (b) caching.TTL over all header atom strings <= k and their two-line splits; (c) pairs of different operations with the same entity fetch in flight together x response class x EVERY completion order of the gated subgraph requests; distinct = distinct (history, header, class, fault, outcome) resp. distinct (verdict, ttl)")
 	run.Assume("subgraph data does not change between steps", "the recording cache follows the documented Cache contract (expired or TTL<=0 entries are misses)")
 	ls, err := newLabs()
 	if err != nil {
@@ -338,6 +338,15 @@ func TestCheck(t *testing.T) {
 		}{}
 		if err := run.ReplayInput(rin); err != nil {
 			t.Fatal(err)
+		}
+		var cin struct {
+			Pair  *int   `json:"concurrent_pair"`
+			Class string `json:"class"`
+			Order []int  `json:"order"`
+		}
+		if err := run.ReplayInput(&cin); err == nil && cin.Pair != nil {
+			replayConcurrent(t, run, ls, *cin.Pair, cin.Class, cin.Order)
+			return
 		}
 		out, fails := runHistory(ls, rin.Hist, rin.Fault, rin.FaultAt)
 		fmt.Printf("history %+v fault %s@%d\noutcome %s\n", rin.Hist, rin.Fault, rin.FaultAt, out)
@@ -405,6 +414,7 @@ func TestCheck(t *testing.T) {
 		}
 	}
 	checkTTLStrings(run)
+	checkConcurrent(t, run, ls)
 }
 
 func faultClass(f string) string {
